@@ -228,6 +228,107 @@ Proof.
   split; [exact Ex|]. split; [lra|]. split; [lra|]. lra.
 Qed.
 
+(* ------------------------------------------------------------------ direction: rtl *)
+Theorem column_positions_rtl_spec widths : forall xr bsx j,
+  (j < length widths)%nat ->
+  nth j (column_positions_rtl exactQ xr bsx widths) 0 == col_left_rtl xr bsx widths j.
+Proof.
+  induction widths as [|w r IH]; intros xr bsx j Hj; simpl in Hj; [lia|].
+  destruct j as [|j]; simpl.
+  - unfold col_left_rtl. simpl. ring.
+  - rewrite IH by lia. unfold col_left_rtl. rewrite (inject_S (S j)). simpl firstn. simpl sumQ. ring.
+Qed.
+
+Lemma column_positions_rtl_length widths xr bsx : length (column_positions_rtl exactQ xr bsx widths) = length widths.
+Proof. revert xr. induction widths; intros xr; simpl; auto. Qed.
+
+(* the mirror image: column j of the rtl table is where column j of the ltr
+   table would be, reflected about the middle of the content box *)
+Lemma span_width_rtl xr bsx widths gx cs :
+  (1 <= cs)%nat -> (gx + cs <= length widths)%nat ->
+  col_right_rtl xr bsx widths gx - col_left_rtl xr bsx widths (gx + cs - 1) ==
+  sumQ (firstn cs (skipn gx widths)) + inject_Z (Z.of_nat cs - 1) * bsx.
+Proof.
+  intros Hcs Hlen. unfold col_right_rtl, col_left_rtl.
+  replace (S (gx + cs - 1)) with (gx + cs)%nat by lia.
+  rewrite (sumQ_firstn_S widths gx) by lia.
+  rewrite (sumQ_firstn_add widths gx cs).
+  replace (Z.of_nat (gx + cs)) with (Z.of_nat (S gx) + (Z.of_nat cs - 1))%Z by lia.
+  rewrite inject_Z_plus. ring.
+Qed.
+
+Theorem cell_horizontal_rtl_spec xr bsx widths c cs x w bw :
+  (0 <= hc_gridx c)%Z -> (1 <= hc_colspan c)%Z ->
+  cell_horizontal_rtl exactQ widths (column_positions_rtl exactQ xr bsx widths) bsx c = Ok (Some (cs, x, w, bw)) ->
+  let gx := Z.to_nat (hc_gridx c) in
+  let n := Z.to_nat cs in
+  cs = Z.min (hc_colspan c) (Z.of_nat (length widths) - hc_gridx c) /\ (1 <= cs)%Z /\
+  (* left edge of the LAST column, right edge of the first one *)
+  x == col_left_rtl xr bsx widths (gx + n - 1) /\
+  x + bw == col_right_rtl xr bsx widths gx /\
+  bw == sumQ (firstn n (skipn gx widths)) + inject_Z (cs - 1) * bsx /\
+  w == bw - (hc_pl c + hc_pr c + hc_bl c + hc_br c).
+Proof.
+  intros Hg Hc H. unfold cell_horizontal_rtl in H.
+  assert (Hc0 : (0 <= hc_colspan c)%Z) by lia.
+  rewrite (spanned_eq widths (hc_gridx c) (hc_colspan c) Hg Hc0) in H.
+  set (sw := firstn (Z.to_nat (hc_colspan c)) (skipn (Z.to_nat (hc_gridx c)) widths)) in *.
+  destruct (Z.of_nat (length sw) =? 0)%Z eqn:E0; [discriminate|].
+  apply Z.eqb_neq in E0.
+  apply bind_ok_inv in H. destruct H as (px & Hpx & H). injection H as <- <- <- <-.
+  assert (Hlen : length sw = Z.to_nat (Z.min (hc_colspan c) (Z.of_nat (length widths) - hc_gridx c))).
+  { unfold sw. rewrite firstn_length, skipn_length. lia. }
+  assert (Hgx : (Z.to_nat (hc_gridx c) < length widths)%nat).
+  { unfold sw in E0. rewrite firstn_length, skipn_length in E0. lia. }
+  assert (Hl1 : (1 <= length sw)%nat) by lia.
+  assert (Hl2 : (Z.to_nat (hc_gridx c) + length sw <= length widths)%nat).
+  { unfold sw. rewrite firstn_length, skipn_length. lia. }
+  cbv zeta.
+  assert (Ecs : Z.of_nat (length sw) = Z.min (hc_colspan c) (Z.of_nat (length widths) - hc_gridx c)) by lia.
+  split; [assumption|]. split; [lia|].
+  rewrite Nat2Z.id.
+  assert (Ex : px == col_left_rtl xr bsx widths (Z.to_nat (hc_gridx c) + length sw - 1)).
+  { unfold index in Hpx. destruct (hc_gridx c + Z.of_nat (length sw) - 1 <? 0)%Z eqn:En; [lia|].
+    replace (Z.to_nat (hc_gridx c + Z.of_nat (length sw) - 1)) with (Z.to_nat (hc_gridx c) + length sw - 1)%nat in Hpx by lia.
+    destruct (nth_error (column_positions_rtl exactQ xr bsx widths) (Z.to_nat (hc_gridx c) + length sw - 1)) as [v|] eqn:Enth; [|discriminate].
+    injection Hpx as <-.
+    rewrite <- (column_positions_rtl_spec widths xr bsx (Z.to_nat (hc_gridx c) + length sw - 1)%nat ltac:(lia)).
+    apply nth_error_nth with (d := 0) in Enth. rewrite Enth. reflexivity. }
+  assert (Esw : sw = firstn (length sw) (skipn (Z.to_nat (hc_gridx c)) widths)).
+  { unfold sw. symmetry. apply firstn_firstn_length. }
+  cbn [add sub mul div exactQ].
+  set (bpp := 0 + hc_pl c + hc_pr c + hc_bl c + hc_br c).
+  set (base := bsx * of_Z (Z.of_nat (length sw) - 1) - bpp).
+  assert (Ebw : fold_left (fun a w0 => a + w0) sw base
+                == sumQ sw + inject_Z (Z.of_nat (length sw) - 1) * bsx - (hc_pl c + hc_pr c + hc_bl c + hc_br c)).
+  { rewrite fold_add_sumQ. unfold base, bpp, of_Z. ring. }
+  pose proof (span_width_rtl xr bsx widths (Z.to_nat (hc_gridx c)) (length sw) Hl1 Hl2) as Hs.
+  rewrite <- Esw in Hs.
+  rewrite <- Esw.
+  set (K := inject_Z (Z.of_nat (length sw) - 1) * bsx) in *.
+  set (FL := fold_left (fun a w0 : Q => a + w0) sw base) in *.
+  split; [exact Ex|]. split; [lra|]. split; [lra|]. lra.
+Qed.
+
+(* rtl columns: adjacent columns one border-spacing apart, the later column to the LEFT *)
+Theorem columns_adjacent_rtl xr bsx widths j :
+  (S j < length widths)%nat ->
+  col_left_rtl xr bsx widths j - col_right_rtl xr bsx widths (S j) == bsx.
+Proof.
+  intros Hj. unfold col_right_rtl, col_left_rtl. rewrite (inject_S (S j)).
+  rewrite (sumQ_firstn_S widths (S j)) by lia. ring.
+Qed.
+
+(* the rtl grid is the mirror image of the ltr grid about the content box [x0, x0 + tw] *)
+Theorem col_rtl_mirror x0 tw bsx widths j :
+  (j < length widths)%nat ->
+  col_right_rtl (x0 + tw) bsx widths j - x0 == tw - (col_left x0 bsx widths j - x0) /\
+  col_left_rtl (x0 + tw) bsx widths j - x0 == tw - (col_right x0 bsx widths j - x0).
+Proof.
+  intros Hj. unfold col_right_rtl, col_left_rtl, col_right, col_left.
+  rewrite (sumQ_firstn_S widths j) by lia. split; ring.
+Qed.
+
 (* ------------------------------------------------------------------ fixedTableLayout *)
 Lemma set_nth_length {A} (l : list A) i a : length (set_nth l i a) = length l.
 Proof.
